@@ -361,6 +361,79 @@ def delivered : List Out → Bytes
   | .payload d :: r => d ++ delivered r
   | _ :: r => delivered r
 
+/-! ## `ssConn.Read` and errors of the underlying conn -/
+
+/-- why a `Read` fails: the packet reader (`ErrInvalidPacket`) or the underlying conn (class `c`:
+    EOF, reset, timeout, … — only carried through) -/
+inductive RdErr
+  | invalidPacket
+  | net (c : Nat)
+deriving DecidableEq, Repr
+
+/-- the connection as `Read` sees it: reader state, `receiveBuffer`, `receiveDecodedBuffer`, and
+    (repaired code) the error that ended the stream, reported once the decoded bytes are drained -/
+structure ConnRd where
+  rx : Rx
+  buf : Bytes
+  dec : Bytes
+  err : Option RdErr
+deriving Repr
+
+/-- one result of the underlying `conn.Conn.Read`: bytes, possibly TOGETHER with an error -/
+abbrev NetRead := Bytes × Option Nat
+
+/-- one `readPackets` call on a given result of the underlying read: the bytes are buffered and
+    decoded FIRST, then the read error (or the packet error) is returned -/
+def ConnRd.readPackets (P : Prims) (k : DirKeys) (s : ConnRd) (r : NetRead) : ConnRd × Option RdErr :=
+  let (rx, os, rest) := SS.readPackets P k s.rx s.buf r.1
+  let s' := { s with rx := rx, buf := rest, dec := s.dec ++ delivered os }
+  (s', if rx.failed then some .invalidPacket else r.2.map .net)
+
+/-- outcome of one `Read(b)`, `len(b) = n`: bytes handed out, error, underlying reads left;
+    `none` = blocked in the underlying read (script exhausted) -/
+abbrev ReadOut := Option (ConnRd × Bytes × Option RdErr × List NetRead)
+
+/-- `ssConn.Read` BEFORE the repair: the error of the `readPackets` call that filled the decoded
+    buffer is returned with the first `n` bytes, whatever is still buffered -/
+def ConnRd.readOld (P : Prims) (k : DirKeys) (n : Nat) : ConnRd → List NetRead → ReadOut
+  | s, script =>
+    if s.dec ≠ [] then some ({ s with dec := s.dec.drop n }, s.dec.take n, none, script)
+    else match script with
+      | [] => none
+      | r :: rest =>
+        match s.readPackets P k r with
+        | (s', some e) => some ({ s' with dec := s'.dec.drop n }, s'.dec.take n, some e, rest)
+        | (s', none) => ConnRd.readOld P k n s' rest
+
+/-- `ssConn.Read` (repaired): the error is remembered and reported only by a call that finds the
+    decoded buffer empty — everything decoded before the error is delivered first -/
+def ConnRd.read (P : Prims) (k : DirKeys) (n : Nat) : ConnRd → List NetRead → ReadOut
+  | s, script =>
+    if s.dec ≠ [] then some ({ s with dec := s.dec.drop n }, s.dec.take n, none, script)
+    else match s.err with
+      | some e => some (s, [], some e, script)
+      | none =>
+        match script with
+        | [] => none
+        | r :: rest =>
+          match s.readPackets P k r with
+          | (s', some e) =>
+            -- remember the error; the loop condition is looked at again
+            if s'.dec ≠ [] then some ({ s' with dec := s'.dec.drop n, err := some e }, s'.dec.take n, none, rest)
+            else some ({ s' with err := some e }, [], some e, rest)
+          | (s', none) => ConnRd.read P k n s' rest
+
+/-- a reader that stops at the first error (`io.ReadAll`, `io.Copy`): everything it got -/
+def readAll (rd : ConnRd → List NetRead → ReadOut) : (fuel : Nat) → ConnRd → List NetRead → Bytes × Option RdErr
+  | 0, _, _ => ([], none)
+  | fuel + 1, s, script =>
+    match rd s script with
+    | none => ([], none)
+    | some (_, d, some e, _) => (d, some e)
+    | some (s', d, none, rest) =>
+      let (d', e) := readAll rd fuel s' rest
+      (d ++ d', e)
+
 /-! ## Ticket store (`ssTicketStore`) -/
 
 structure Ticket where
